@@ -9,6 +9,7 @@ Exit status: 0 the property held on everything explored (KNOWN-FINDING lines pos
 1 with a line `VIOLATION property=<ID> replay=<path>`, 2 inconclusive (build failure, harness
 time-out, truncated run).  Python standard library only.
 """
+import glob
 import json
 import os
 import re
@@ -278,6 +279,27 @@ def run(prop_id, prop, tier, seed, replay, only, scratch, t0):
     with ThreadPoolExecutor(max_workers=MAXPROCS) as ex:
         list(ex.map(lambda s: run_shard(s, testbins[s.part.get("pkg", prop["pkg"])], prop_id, tier, seed, binpath, scratch), shards))
 
+    # saved regression cases (shrunk failures of repaired defects and of seeded changes): replayed
+    # through the same oracles without any generator, in both tiers
+    regress = sorted(glob.glob(os.path.join(VERIF, "replays", "regress", prop_id + "-*.json"))) if not only or "regress" in only else []
+    regress_failed = []
+
+    def run_regress(path):
+        part_name = json.load(open(path)).get("part", "")
+        part = next((p for p in prop["parts"] if p["name"] == part_name), prop["parts"][0])
+        sh = Shard(dict(part, name="regress-" + os.path.basename(path)[:-5]), 0, 1, scratch)
+        run_shard(sh, testbins[part.get("pkg", prop["pkg"])], prop_id, tier, seed, binpath, scratch, replay=path)
+        return path, sh
+
+    if regress:
+        with ThreadPoolExecutor(max_workers=MAXPROCS) as ex:
+            for path, sh in ex.map(run_regress, regress):
+                if sh.rc != 0:
+                    sig = ""
+                    if os.path.exists(sh.fail):
+                        sig = json.load(open(sh.fail)).get("sig", "")
+                    regress_failed.append((path, sig, sh))
+
     violations, known_lines, inconclusive = [], [], []
     agg = {"evaluations": 0, "hashes": set(), "classes": {}, "samples": [], "excluded": {}, "notes": [], "parts": {}}
     exhaustive_parts = []
@@ -358,6 +380,22 @@ def run(prop_id, prop, tier, seed, replay, only, scratch, t0):
             continue
         dst = save_replay(prop_id, sh.part["name"], seed, sh.idx, path)
         real.append((dst, sig, msg, sh))
+
+    for path, sig, sh in regress_failed:
+        if sh.timed_out:
+            inconclusive.append("regression case %s: harness time-out" % path)
+        elif (prop_id, sig) in known:
+            line = "KNOWN-FINDING: property=%s sig=%s %s" % (prop_id, sig, known[(prop_id, sig)])
+            if line not in known_lines:
+                known_lines.append(line)
+        else:
+            real.append((path, sig, "saved regression case fails again: " + open(sh.logf, errors="replace").read()[-600:], sh))
+    if regress:
+        agg["evaluations"] += len(regress)
+        agg["parts"]["regress"] = {"evaluations": len(regress), "distinct_nontrivial": set(), "shards": 1, "requested": 0, "passed": 0, "wall_s": 0.0}
+        for r in regress:
+            agg["hashes"].add("regress:" + os.path.basename(r))
+            agg["parts"]["regress"]["distinct_nontrivial"].add(os.path.basename(r))
 
     wall = time.time() - t0
     # evidence
